@@ -119,7 +119,7 @@ func C06(c *run.Ctx) {
 	}
 	nTok := 2
 	if !c.Quick() {
-		nTok = 12
+		nTok = 32
 	}
 	for ci, h := range cfgs {
 		if !c.Mine(ci) {
@@ -471,7 +471,7 @@ func mustJSON(m map[string]interface{}) []byte {
 
 // c06Mint: minted values never repeat and carry at least the configured entropy.
 func c06Mint(c *run.Ctx) {
-	n := c.N(20000, 400000)
+	n := c.N(20000, 1600000)
 	ctx := context.Background()
 	w := world.New(world.Opts{Cfg: func(cfg *fosite.Config) { cfg.TokenEntropy = []int{0, 48}[c.Shard%2] }})
 	want := 32
